@@ -207,6 +207,7 @@ type Ctx struct {
 	localRefs []string // refs allocated during the current effects-discovery run
 	witness   []WitnessTerm
 	paramMode bool
+	entryArgs map[int]Value
 }
 
 func (c *Ctx) freshConst(hint string, s Sort) Term {
@@ -601,6 +602,21 @@ func (c *Ctx) newRef(s *State, hint string) Term {
 	s.assume(Term{fmt.Sprintf("(and (= (birth %s) %d) (not (= %s 0)))", r.S, s.clock, r.S), SBool})
 	if c.written != nil {
 		c.localRefs = append(c.localRefs, r.S)
+	}
+	// a fresh object is not stored in any map yet
+	if c.scout == 0 {
+		for _, name := range sortedKeys(s.heap) {
+			if !strings.HasPrefix(name, "MapVal|") {
+				continue
+			}
+			h := s.heap[name]
+			if arrElemSort(h.Sort) == "" || arrElemSort(arrElemSort(h.Sort)) != SInt {
+				continue
+			}
+			ks := arrIdxSort(arrElemSort(h.Sort))
+			c.fresh++
+			s.assume(Term{fmt.Sprintf("(forall ((fm!%d Int) (fk!%d %s)) (not (= (select (select %s fm!%d) fk!%d) %s)))", c.fresh, c.fresh, ks, h.S, c.fresh, c.fresh, r.S), SBool})
+		}
 	}
 	return r
 }
